@@ -44,7 +44,7 @@ def _site(rng):
         lat = rng.choice([0.0, 1e-9, -1e-9])
     else:
         lat = math.degrees(math.asin(rng.uniform(-1, 1)))
-    lon = rng.choice([rng.uniform(-180, 180), rng.uniform(-180, 180), 180.0, -180.0, 0.0, 179.999999])
+    lon = rng.choice([rng.uniform(-180, 180), rng.uniform(-180, 180), 180.0, -180.0, 0.0, 179.999999, rng.uniform(180.0, 360.0)])  # last: east longitude in the 0..360 convention
     alt = rng.choice([0.0, rng.uniform(0, 5.0), rng.uniform(-0.3, 0.0)])
     return lat, lon, alt
 
